@@ -687,3 +687,26 @@ _define("C06", _C06_MOD, {
     "encodes": ["<IntRange as Lex>::lex"], "symbolic": "the value (full i64)",
     "bound": "fixed text `1;`, unwind 3", "oracle": "a single value v denotes v..=v", "min_covers": 1,
     "stubs": ["<i64 as Lex>::lex -> consumes one character, returns an arbitrary i64"]})
+
+_define("C17", _CMP_MOD, {
+    "name": "c17_inlist_absent_default", "mod": "verif_kani_cmp", "big": True, "timeout": 1200, "mem_gb": 24, "rss_gb": 6,
+    "encodes": ["ComparisonExpr::compile_with_compiler (InList arm: default passed on for an absent value)"],
+    "symbolic": "nil-not-equal setting", "bound": "unwind 4", "oracle": "default is false", "min_covers": 2,
+    "stubs": ["IndexExpr::compile_with -> harness continuation recording the default only", "rand::rngs::thread::rng -> unreachable"]})
+
+_ARR_MOD = {"mod": "verif_kani_arr", "host": "engine/src/lhs_types/array.rs", "file": "engine/array_kernels.rs"}
+_define("C02", _ARR_MOD, {
+    "name": "c02_array_get_extract", "mod": "verif_kani_arr", "timeout": 1200, "mem_gb": 20, "rss_gb": 8,
+    "encodes": ["Array::get", "Array::extract (borrowed)", "InnerArray::get", "Array::len/is_empty"],
+    "symbolic": "<= 3 Int elements (values), length, index u32", "bound": "3 elements, unwind 5",
+    "oracle": "the n-th element iff n < len (including n = len-1), otherwise no value", "min_covers": 4})
+_define("C02", _ARR_MOD, {
+    "name": "c02_array_extract_owned", "mod": "verif_kani_arr", "tier": "thorough", "core": False, "timeout": 1200, "mem_gb": 20, "rss_gb": 8,
+    "encodes": ["Array::extract (owned: swap_remove)"],
+    "symbolic": "3 Int elements, index u32", "bound": "3 elements, unwind 5",
+    "oracle": "the n-th element iff n < 3", "min_covers": 2})
+_define("C03", _ARR_MOD, {
+    "name": "c03_filter_map_order", "mod": "verif_kani_arr", "tier": "thorough", "core": False, "timeout": 1500, "mem_gb": 24, "rss_gb": 10,
+    "encodes": ["Array::filter_map_to (owned path, used by map-each function application)"],
+    "symbolic": "4 Int elements, the value whose occurrences the mapped function drops", "bound": "4 elements, unwind 5",
+    "oracle": "dropped elements disappear, the surviving ones keep their order", "min_covers": 3})
